@@ -32,6 +32,11 @@ type ProgSpec struct {
 	Chain  int      `json:"chain,omitempty"`
 	Script []string `json:"script,omitempty"`
 	OStr   int      `json:"ostr,omitempty"`
+	// Lean: no temporaries (prologue, long-lived values, body, dump, tail);
+	// DeclVGPR: VGPRs the code object declares; Tail: operations before s_endpgm
+	Lean     bool     `json:"lean,omitempty"`
+	DeclVGPR int      `json:"decl_vgpr,omitempty"`
+	Tail     []string `json:"tail,omitempty"`
 }
 
 // Kernel is one generated kernel with its launch.
@@ -73,6 +78,7 @@ var allFeatures = []string{
 	"abi_dispatch", "abi_wgcount",
 	"multi_kernel", "readfirstlane", "vop3_sgpr_pair", "vcc_ops", "exec_ops", "sgpr64",
 	"waw", "waw_waitcnt", "raw_mem", "xkernel",
+	"tail_nowait", "tail_smem", "tail_flat_ld", "tail_flat_st", "tail_lds", "oversub",
 }
 
 // features that exist only for one architecture
@@ -80,7 +86,7 @@ var cdna3Only = []string{"saddr", "goffset", "v5_ids_yz", "vgpr_pressure"}
 
 // probe-only features (never drawn by seeded programs): ABI flags whose
 // register layout DESIGN suspects to differ, s_getpc_b64, SADDR = s[0:1]
-var probeOnly = []string{"abi_queue_ptr", "abi_private_segment_size", "s_getpc", "saddr_s0"}
+var probeOnly = []string{"abi_queue_ptr", "abi_private_segment_size", "s_getpc", "saddr_s0", "slot_recycle", "slot_recycle_small"}
 
 func featureList(arch string) []string {
 	out := append([]string{}, allFeatures...)
@@ -411,7 +417,7 @@ func (x *gen) waitcntBlock() {
 // work-item (and no store is placed in a loop). needWait: an s_waitcnt
 // vmcnt(0) has to precede the store.
 func (x *gen) storeOffset(n int) (off int, needWait, ok bool) {
-	span := (x.k.oStr - outBodyOff) / 4
+	span := (x.k.oBody - outBodyOff) / 4
 	free := func(d int) bool {
 		for j := 0; j < n; j++ {
 			if x.written[d+j] {
@@ -458,7 +464,7 @@ func (x *gen) storeOffset(n int) (off int, needWait, ok bool) {
 // (the second must win).
 func (x *gen) wawPair(c []stKind) {
 	a, b := pick(x.r, c), pick(x.r, c)
-	span := (x.k.oStr - outBodyOff) / 4
+	span := (x.k.oBody - outBodyOff) / 4
 	m := max(a.regs, b.regs)
 	d := x.r.Intn(span - m + 1)
 	da := d + x.r.Intn(m-a.regs+1)
@@ -952,6 +958,17 @@ func (x *gen) runScript(script []string) {
 			k.add(g.Waitcnt(a, 7, 15))
 		case scan(line, "alu %d", &a):
 			x.aluRun(a)
+		case scan(line, "spin %d", &a):
+			// uniform scalar work loop (keeps the wavefront alive for a while)
+			top := k.label("spin")
+			k.add(g.MkSOPK(0, g.S(sCNT), uint16(a)))
+			k.p.Label(top)
+			k.sop2(opSAddU32, g.S(sT0), g.S(sT0), g.S(sCNT))
+			k.sop2(opSMulI32, g.S(sT0+1), g.S(sT0), g.Imm(3))
+			k.sop2(16, g.S(sT0+2), g.S(sT0+2), g.S(sT0+1))
+			k.sop2(2, g.S(sCNT), g.S(sCNT), g.Imm(-1))
+			k.add(g.MkSOPC(7, g.S(sCNT), g.Imm(0)))
+			k.add(g.Branch(g.OpSCbranchSCC1, top))
 		default:
 			panic("bad script line: " + line)
 		}
@@ -1030,8 +1047,23 @@ func BuildProgram(spec ProgSpec) (prog *Program, err error) {
 	} else if spec.Arch == "cdna3" && (geo.WG[1] > 1 || geo.WG[2] > 1) {
 		x.use("v5_ids_yz")
 	}
+	rt := vlib.NewPRNG(spec.Seed).Fork("tail/" + spec.Arch)
+	oversub := false
+	if spec.Geo == nil && !force["xkernel"] && allow["oversub"] && (force["oversub"] || rt.Chance(1, 8)) {
+		// many one-wavefront work-groups with a register budget that lets one
+		// wavefront live on a SIMD: on the small platform variants the
+		// wavefront slots are recycled many times
+		oversub = true
+		n := []int{16, 24, 32}[spec.Size]
+		w := pick(rt, []int{64, 32, 16, 8})
+		geo = Launch{Grid: [3]uint32{uint32(n*w - rt.Intn(w/2)), 1, 1}, WG: [3]uint16{uint16(w), 1, 1}}
+	}
 	geoUsed := x.used
 	prog.InSize = geo.slots()*112 + 256
+	{
+		n := geo.numWG()
+		prog.TabSize = tabColdOff + 64*n[0]*n[1]*n[2] + 64
+	}
 
 	if force["abi_queue_ptr"] || force["abi_private_segment_size"] {
 		abi := ABI{QueuePtr: force["abi_queue_ptr"], PrivSegSize: force["abi_private_segment_size"]}
@@ -1088,6 +1120,7 @@ func BuildProgram(spec ProgSpec) (prog *Program, err error) {
 		if spec.OStr > 0 {
 			oStr = spec.OStr
 		}
+		oStr += llDump // the dump of the long-lived registers ends every OUT region
 		inFrom, outTo := -1, -1
 		if chain {
 			if ki == 0 {
@@ -1119,6 +1152,27 @@ func BuildProgram(spec ProgSpec) (prog *Program, err error) {
 		}
 		k := newKB(arch, spec.Arch == "cdna3", geo, abi, oStr, iStr, iShift)
 		k.rev = chain && ki > 0
+		k.lean = spec.Lean
+		// what happens between the last store and s_endpgm (own PRNG stream)
+		for _, t := range []string{"nowait", "smem", "flat_ld", "flat_st", "lds"} {
+			f := "tail_" + t
+			if allow[f] && (force[f] || rt.Chance(1, 5)) {
+				k.tail = append(k.tail, t)
+				x.use(f)
+			}
+		}
+		for _, t := range spec.Tail {
+			if !k.hasTail(t) {
+				k.tail = append(k.tail, t)
+			}
+		}
+		if spec.DeclVGPR > 0 {
+			k.declVGPR = spec.DeclVGPR
+		}
+		if oversub {
+			k.declVGPR = 256
+			x.use("oversub")
+		}
 		if allow["vgpr_pressure"] && (force["vgpr_pressure"] || r.Chance(1, 6)) {
 			// the mi300a advertises 512 VGPRs per lane: declare a large register
 			// budget (the code uses the same registers)
@@ -1130,7 +1184,10 @@ func BuildProgram(spec ProgSpec) (prog *Program, err error) {
 		}
 		x.k = k
 		k.prologue()
-		k.initTemps(r.Uint64())
+		seedT := r.Uint64()
+		if !k.lean {
+			k.initTemps(seedT)
+		}
 		if abi.DispatchPtr {
 			// fold the grid size read through the dispatch pointer (AQL packet
 			// offset 12 = grid_size_x) into the data flow
